@@ -202,6 +202,17 @@ pub const BUNDLED_NAMES: &[&str] = &[
     "US/Hawaii",
 ];
 
+/// Names longer than any tz database identifier (zoneinfo only: the
+/// concatenated format caps names at 40 bytes): 64 bytes, the same plus two
+/// (so that both share a 64-byte prefix), and 80 bytes in nested directories.
+pub fn long_names() -> [String; 3] {
+    let n64 = format!("Long/Name_{}", "Xy".repeat(27));
+    let n66 = format!("{n64}_2");
+    let n80 = format!("Longer/Path/Zone_{}c", "Ab".repeat(31));
+    assert_eq!((n64.len(), n66.len(), n80.len()), (64, 66, 80));
+    [n64, n66, n80]
+}
+
 pub const HOSTILE: &[&str] = &[
     "../x",
     "",
@@ -330,6 +341,13 @@ pub fn generate(rng: &mut Rng, tier: Tier, force_fault_free: Option<bool>) -> Ca
                 continue;
             }
             universe.push(name.to_string());
+        }
+        if backend == Backend::ZoneInfo && g.rng.chance(1, 4) {
+            let long = long_names();
+            let k = 1 + g.rng.usize_below(3);
+            for name in long.iter().take(k) {
+                universe.push(name.clone());
+            }
         }
         if backend == Backend::ZoneInfo
             && universe.len() >= 2
